@@ -23,6 +23,8 @@ def _starts_with_batch(args: List[ast.AST], env: Dict[str, str]) -> str:
     if isinstance(a0, ast.Name):
         if a0.id in BATCH_NAMES:
             return "batch"
+        if any(isinstance(a, ast.Starred) and src(a.value) in BATCH_NAMES for a in args[1:]):
+            return "nobatch"  # the batch shape is spliced in after a leading size
         return env.get(a0.id, "unknown") if env.get(a0.id) in ("batch", "nobatch") else "unknown"
     if src(a0) in BATCH_NAMES:
         return "batch"
